@@ -45,6 +45,9 @@ theorem OK.peek (n : Nat) : OK (peek n) := by
   intro st; unfold Xmp.peek
   repeat' split
   all_goals exact ⟨by simp [isFuel], Nat.le_refl _⟩
+theorem OK.peekWide (n : Nat) (old : Bytes) : OK (peekWide n old) := by
+  intro st; unfold Xmp.peekWide
+  exact ⟨by simp [isFuel], Nat.le_refl _⟩
 theorem OK.discard (n : Nat) : OK (discard n) := by
   intro st; unfold Xmp.discard; exact ⟨by simp [isFuel], by simp⟩
 theorem OK.setA (b : Bool) : OK (setA b) := fun _ => ⟨by simp [isFuel, Xmp.setA], Nat.le_refl _⟩
@@ -62,7 +65,7 @@ attribute [irreducible] OK
 
 macro "ok_step" : tactic => `(tactic| first
   | with_reducible exact OK.pure _ | with_reducible exact OK.fail _ (by decide)
-  | with_reducible exact OK.peek _ | with_reducible exact OK.discard _ | with_reducible exact OK.setA _
+  | with_reducible exact OK.peek _ | with_reducible exact OK.peekWide _ _ | with_reducible exact OK.discard _ | with_reducible exact OK.setA _
   | with_reducible exact OK.getA | with_reducible exact OK.emit _ | with_reducible exact OK.at? _ _
   | with_reducible assumption
   | with_reducible apply OK.bind
@@ -185,23 +188,32 @@ theorem findTagStart_spec : ∀ (f sz i0 : Nat) (st st' : St) (t : TagT) (buf : 
         have hlen := peek_len sz sp sp pb hp
         split at h
         · next hk =>
-          cases ha : Xmp.at? pb (idxFrom (fun x => x == 60) pb i0 + 1) sp with
-          | mk r2 s2 =>
-            have hs2 : s2 = sp := by have := at_state pb (idxFrom (fun x => x == 60) pb i0 + 1) sp; rw [ha] at this; exact this
-            subst hs2
-            cases r2 with
-            | error e => rw [bind_err _ _ _ _ _ ha] at h; simp at h
-            | ok n1 =>
-              rw [bind_ok _ _ _ _ _ ha] at h
-              split at h
-              · simp only [Pure.pure, Prod.mk.injEq, Except.ok.injEq] at h
-                obtain ⟨⟨_, _, h3⟩, h4⟩ := h
-                exact ⟨h4.symm, by omega, by omega⟩
-              · split at h
-                · simp [Xmp.fail] at h
+          -- the second look neither fails nor changes the state
+          obtain ⟨wb, hw⟩ : ∃ wb, (if pb.length - idxFrom (fun x => x == 60) pb i0 < 128 then
+              Xmp.peekWide (min (idxFrom (fun x => x == 60) pb i0 + 128) W) pb else (Pure.pure pb : M Bytes)) sp = (.ok wb, sp) := by
+            split
+            · exact ⟨_, rfl⟩
+            · exact ⟨_, rfl⟩
+          rw [bind_ok _ _ _ _ _ hw] at h
+          split at h
+          · simp [Xmp.fail] at h
+          · cases ha : Xmp.at? wb (idxFrom (fun x => x == 60) pb i0 + 1) sp with
+            | mk r2 s2 =>
+              have hs2 : s2 = sp := by have := at_state wb (idxFrom (fun x => x == 60) pb i0 + 1) sp; rw [ha] at this; exact this
+              subst hs2
+              cases r2 with
+              | error e => rw [bind_err _ _ _ _ _ ha] at h; simp at h
+              | ok n1 =>
+                rw [bind_ok _ _ _ _ _ ha] at h
+                split at h
                 · simp only [Pure.pure, Prod.mk.injEq, Except.ok.injEq] at h
                   obtain ⟨⟨_, _, h3⟩, h4⟩ := h
                   exact ⟨h4.symm, by omega, by omega⟩
+                · split at h
+                  · simp [Xmp.fail] at h
+                  · simp only [Pure.pure, Prod.mk.injEq, Except.ok.injEq] at h
+                    obtain ⟨⟨_, _, h3⟩, h4⟩ := h
+                    exact ⟨h4.symm, by omega, by omega⟩
         · exact ih _ _ sp st' t buf i h
 
 theorem Prog.readTagHeader (parent : Tag) : Prog (readTagHeader parent) := by
@@ -603,6 +615,7 @@ theorem readRootTag_ok : ∀ (f : Nat) (st : St), st.rest.length < f → OKat (r
       | bufferFull => exact ih st1 (by have := hspec.2 (by simp); omega)
       | negativeRead => exact ih st1 (by have := hspec.2 (by simp); omega)
       | recovered => exact ih st1 (by have := hspec.2 (by simp); omega)
+      | unexpectedEOF => exact ih st1 (by have := hspec.2 (by simp); omega)
       | fuel => exact ih st1 (by have := hspec.2 (by simp); omega)
     | none =>
       have hlt1 : st1.rest.length < f := by have := hspec.2 (by simp); omega
